@@ -14,14 +14,96 @@ never equal.
 """
 import ast
 import hashlib
+import time
 import sympy as sp
 from .report import AnalysisError
 from . import pyfacts as pf
 from . import nf
 from .nf import where, sym, num
 
+MUTATORS = {"pop", "append", "extend", "update", "setdefault", "sort", "remove", "insert", "clear", "fill", "resize", "popitem",
+            "add", "discard", "reverse", "put", "itemset", "setflags", "write", "writelines", "close", "release", "seek"}
 NOOP_CALLS = ("logging.", "logger.", "print", "warnings.", "log.", "sys.stdout", "sys.stderr")
 F = sp.Function
+_NEG = {"cmp_Lt": "cmp_GtE", "cmp_GtE": "cmp_Lt", "cmp_Gt": "cmp_LtE", "cmp_LtE": "cmp_Gt", "cmp_Eq": "cmp_NotEq",
+        "cmp_NotEq": "cmp_Eq", "cmp_Is": "cmp_IsNot", "cmp_IsNot": "cmp_Is", "cmp_In": "cmp_NotIn", "cmp_NotIn": "cmp_In"}
+
+
+_SIZE = {}
+_HC = {}
+
+
+def size_of(v):
+    """Tree size with memoisation on (hashable) sub-expressions."""
+    try:
+        got = _SIZE.get(v)
+    except TypeError:
+        return 1
+    if got is not None:
+        return got
+    args = getattr(v, "args", ())
+    n = 1
+    for a in args:
+        n += size_of(a)
+        if n > 10 ** 7:
+            break
+    _SIZE[v] = n
+    return n
+
+
+def hcons(v, limit=0):
+    """Name a value by the digest of its structure when it is larger than `limit` nodes."""
+    if getattr(v, "is_Atom", True) or size_of(v) <= limit:
+        return v
+    name = "h_" + hashlib.sha1(sp.srepr(v).encode()).hexdigest()[:14]
+    _HC[name] = v
+    return sym(name)
+
+
+def _okey(v):
+    return str(v) if size_of(v) < 400 else str(hcons(v))
+
+
+def mk_not(v):
+    """Logical negation in canonical form (negated comparisons are flipped, double negation removed)."""
+    name = getattr(getattr(v, "func", None), "__name__", "")
+    if name == "bnot":
+        return v.args[0]
+    if name in _NEG:
+        return F(_NEG[name])(*v.args)
+    if name == "band":
+        return mk_bool("bor", [mk_not(a) for a in v.args])
+    if name == "bor":
+        return mk_bool("band", [mk_not(a) for a in v.args])
+    return F("bnot")(v)
+
+
+def mk_bool(op, vals):
+    """n-ary and/or with flattened, sorted, de-duplicated operands."""
+    flat = []
+    for v in vals:
+        if getattr(getattr(v, "func", None), "__name__", "") == op:
+            flat.extend(v.args)
+        else:
+            flat.append(v)
+    uniq = []
+    for v in sorted(flat, key=_okey):
+        if v not in uniq:
+            uniq.append(v)
+    return uniq[0] if len(uniq) == 1 else F(op)(*uniq)
+
+
+def mk_where(c, a, b):
+    if a == b:
+        return a
+    if size_of(a) + size_of(b) > 4000:
+        a, b = hcons(a, 400), hcons(b, 400)
+    if size_of(c) > 2000:
+        c = hcons(c)
+    nc = mk_not(c)
+    if _okey(nc) < _okey(c):
+        return where(nc, b, a)
+    return where(c, a, b)
 
 
 def _digest(node):
@@ -37,12 +119,31 @@ class Result:
 
 
 class PyVal:
-    def __init__(self, funcs=None, facts=None, strip_broadcast=True, pure=()):
+    def __init__(self, funcs=None, facts=None, strip_broadcast=True, pure=(), exact=False):
+        self.exact = exact             # exact: no broadcasting-subscript stripping, no identity simplification of casts
         self.funcs = funcs or {}
         self.facts = facts or {}       # test text -> bool
-        self.strip = strip_broadcast
+        self.strip = strip_broadcast and not exact
         self.pure = set(pure)          # call names whose statement-level calls do not mutate their arguments
-        self.calls = []                # (call name, Call node, [positional values], {keyword: value}) in fold order
+        self.calls = []                # (call name, Call node, [positional values], {keyword: value}, value) in fold order
+        self.inline = {}               # call name -> FunctionDef: helpers folded into their call sites
+        self.depth = 0
+        self.steps = 0                 # statements folded so far (budget against path blow-up)
+        self.t0 = None
+        self.hc = {}                   # hash-consed receiver histories: symbol name -> value
+        self.pc = []                   # path condition: branch tests / loop heads enclosing the statement being folded
+        self.effects = []              # (path condition tuple, call value) for every call, in fold order
+
+    def _hcons(self, v):
+        """Name a non-trivial value by the digest of its structure (keeps histories of mutated objects small)."""
+        return hcons(v, 3)
+
+    def _under(self, cond, fn, *a):
+        self.pc.append(cond)
+        try:
+            return fn(*a)
+        finally:
+            self.pc.pop()
 
     # ------------------------------------------------------------------ expressions
     def value(self, node, env):
@@ -58,7 +159,13 @@ class PyVal:
         args = [env.get(nm, sym(nm)) for nm in sorted(names)]
         return F("%s_%s" % (tag, _digest(node)))(*args) if args else sym("%s_%s" % (tag, _digest(node)))
 
+    def _tick(self):
+        self.ticks = getattr(self, "ticks", 0) + 1
+        if self.ticks % 400 == 0 and self.t0 is not None and time.time() - self.t0 > 15:
+            raise AnalysisError("pyval: fold budget exceeded (time)")
+
     def _v(self, node, env):
+        self._tick()
         key = pf.unparse(node)
         if key in env and not isinstance(node, ast.Constant):
             return env[key]
@@ -103,25 +210,37 @@ class PyVal:
                 if isinstance(op, ast.Pow): return l ** r
             except TypeError:
                 pass
+            if isinstance(op, ast.BitAnd):
+                return mk_bool("band", [l, r])
+            if isinstance(op, ast.BitOr):
+                return mk_bool("bor", [l, r])
             return F("op_" + type(op).__name__)(l, r)
         if isinstance(node, ast.UnaryOp):
             v = self._v(node.operand, env)
             if isinstance(node.op, ast.USub): return -v
             if isinstance(node.op, ast.UAdd): return v
-            return F("bnot")(v)
+            return mk_not(v)
         if isinstance(node, ast.BoolOp):
-            vals = [self._v(x, env) for x in node.values]
-            out = vals[0]
-            for x in vals[1:]:
-                out = F("b" + type(node.op).__name__.lower())(out, x)
-            return out
+            vals = []
+            pushed = 0
+            try:
+                for x in node.values:
+                    v = self._v(x, env)
+                    vals.append(v)
+                    # short circuit: the remaining operands are evaluated only when this one is true (and) / false (or)
+                    self.pc.append(v if isinstance(node.op, ast.And) else mk_not(v))
+                    pushed += 1
+            finally:
+                for _ in range(pushed):
+                    self.pc.pop()
+            return mk_bool("b" + type(node.op).__name__.lower(), vals)
         if isinstance(node, ast.Compare):
             l = self._v(node.left, env)
             out = None
             for op, c in zip(node.ops, node.comparators):
                 rv = self._v(c, env)
                 t = F("cmp_" + type(op).__name__)(l, rv)
-                out = t if out is None else F("band")(out, t)
+                out = t if out is None else mk_bool("band", [out, t])
                 l = rv
             return out
         if isinstance(node, ast.IfExp):
@@ -130,7 +249,8 @@ class PyVal:
                 return self._v(node.body, env)
             if t is False:
                 return self._v(node.orelse, env)
-            return where(self._v(node.test, env), self._v(node.body, env), self._v(node.orelse, env))
+            c = self._v(node.test, env)
+            return mk_where(c, self._under(c, self._v, node.body, env), self._under(mk_not(c), self._v, node.orelse, env))
         if isinstance(node, (ast.Tuple, ast.List)):
             return F("seq")(*[self._v(e, env) for e in node.elts]) if node.elts else sym("seq0")
         if isinstance(node, ast.Starred):
@@ -145,6 +265,10 @@ class PyVal:
             return F("idx")(base, self._slice(sl, env))
         if isinstance(node, ast.Call):
             return self._call(node, env)
+        if isinstance(node, (ast.Yield, ast.YieldFrom, ast.Await)):
+            v = self._v(node.value, env) if node.value is not None else sym("None")
+            self.effects.append((tuple(self.pc), "yield!", F(type(node).__name__.lower())(hcons(v, 40))))
+            return F("sent")(hcons(v, 40))
         if isinstance(node, ast.Lambda):
             sub = dict(env)
             a = node.args
@@ -191,18 +315,65 @@ class PyVal:
         kwv = {(k.arg or "**"): self._v(k.value, env) for k in node.keywords}
         v = self._call_value(node, env, name, args, kwv)
         self.calls.append((name, node, args, kwv, v))
+        if self.depth == 0 or name not in self.inline:
+            self.effects.append((tuple(self.pc), name, v))
+        # a mutating method anywhere in an expression updates its receiver
+        f = node.func
+        if isinstance(f, ast.Attribute) and f.attr in MUTATORS and isinstance(f.value, (ast.Name, ast.Attribute)) \
+                and not name.split(".")[0] in ("np", "numpy", "os", "math", "re"):
+            self._store(f.value, F("after_" + f.attr)(self._hcons(self._v(f.value, env)), *args), env)
         return v
+
+    def _inline_call(self, fn, args, kwv, skip_self):
+        a = fn.args
+        pos = [p.arg for p in a.posonlyargs + a.args]
+        if skip_self and pos:
+            pos = pos[1:]
+        sub = {}
+        defaults = dict(zip(reversed(pos), reversed([d for d in a.defaults])))
+        for k, p in enumerate(pos):
+            if k < len(args):
+                sub[p] = args[k]
+            elif p in kwv:
+                sub[p] = kwv[p]
+            elif p in defaults:
+                sub[p] = self._v(defaults[p], {})
+            else:
+                return None
+        for p, d in zip(a.kwonlyargs, a.kw_defaults):
+            if p.arg in kwv:
+                sub[p.arg] = kwv[p.arg]
+            elif d is not None:
+                sub[p.arg] = self._v(d, {})
+            else:
+                return None
+        if a.vararg or a.kwarg or len(args) > len(pos) or set(kwv) - set(pos) - {p.arg for p in a.kwonlyargs}:
+            return None
+        body = list(fn.body)
+        if body and isinstance(body[0], ast.Expr) and isinstance(body[0].value, ast.Constant):
+            body = body[1:]
+        self.depth += 1
+        try:
+            r = self.run(body, sub)
+        finally:
+            self.depth -= 1
+        return r.ret if r.ret is not None else sym("None")
 
     def _call_value(self, node, env, name, args, kwv):
         short = name.split(".")[-1]
-        kws = [F("kw")(sym("=" + k), v) for k, v in kwv.items()]
+        if name in self.inline and self.depth < 3:
+            v = self._inline_call(self.inline[name], args, kwv, skip_self=name.startswith("self."))
+            if v is not None:
+                return v
+        kws = [F("kw")(sym("=" + k), v) for k, v in sorted(kwv.items())]
         if not kws:
             if name in self.funcs:
                 return self.funcs[name](*args)
             if short in self.funcs:
                 return self.funcs[short](*args)
             try:
-                if short in nf._FUNCS and (name == short or name.split(".")[0] in ("np", "numpy", "math", "sp", "scipy", "special")):
+                if short in nf._FUNCS and (name == short or name.split(".")[0] in ("np", "numpy", "math", "sp", "scipy", "special")) \
+                        and not (self.exact and short in ("asarray", "float", "double")):
                     return nf._FUNCS[short](*args)
                 if short == "clip" and len(args) == 3:
                     return nf.clipf(*args)
@@ -217,7 +388,7 @@ class PyVal:
                 recv_key = pf.unparse(f.value)
                 recv = env.get(recv_key)
                 if recv is not None and recv != sym(recv_key):
-                    return F("m_" + f.attr)(recv, *args, *kws)
+                    return F("m_" + f.attr)(self._hcons(recv), *args, *kws)
             return F(name.replace(".", "_"))(*args, *kws)
         return F("calldyn")(self._v(node.func, env), *args, *kws)
 
@@ -227,11 +398,33 @@ class PyVal:
         env = dict(env or {})
         guards = []
         for i, st in enumerate(stmts):
+            self.steps += 1
+            if self.t0 is None:
+                self.t0 = time.time()
+            if self.steps > 20000 or (self.steps % 50 == 0 and time.time() - self.t0 > 15):
+                raise AnalysisError("pyval: fold budget exceeded (too many paths)")
             if isinstance(st, ast.Return):
                 v = self.value(st.value, env) if st.value is not None else sym("None")
+                self.effects.append((tuple(self.pc), "return", F("returns")(hcons(v, 40))))
                 return Result(env, v, guards, "return")
             if isinstance(st, ast.Raise):
                 return Result(env, None, guards, "raise")
+            if isinstance(st, (ast.Break, ast.Continue)):
+                env["__flow"] = F(type(st).__name__.lower())(env.get("__flow", sp.Integer(0)))
+                return Result(env, None, guards, "loopexit")
+            if isinstance(st, (ast.With, ast.AsyncWith)) and self._terminates(st.body):
+                for it in st.items:
+                    if it.optional_vars is not None:
+                        self._store(it.optional_vars, F("enter")(self.value(it.context_expr, env)), env)
+                    else:
+                        self.value(it.context_expr, env)
+                r = self.run(list(st.body) + list(stmts[i + 1:]), env)
+                r.guards = guards + r.guards
+                return r
+            if isinstance(st, ast.Try) and self._terminates(st.body) and not self._terminates_raise_only(st.body):
+                r = self.run(list(st.body) + list(st.finalbody) + list(stmts[i + 1:]), env)
+                r.guards = guards + r.guards
+                return r
             if isinstance(st, ast.If):
                 rest = stmts[i + 1:]
                 out = self._if(st, rest, env, guards)
@@ -241,13 +434,29 @@ class PyVal:
             self._simple(st, env, guards)
         return Result(env, None, guards, None)
 
-    def _terminates(self, stmts):
-        """Does the block contain a return/raise at any depth (outside nested functions)?"""
-        for st in stmts:
-            for n in pf.walk_stmts(ast.Module(body=[st], type_ignores=[])):
-                if isinstance(n, (ast.Return, ast.Raise)):
+    def _terminates(self, stmts, kinds=(ast.Return, ast.Raise, ast.Break, ast.Continue)):
+        """Does the block contain a return/raise at any depth, or a break/continue of the enclosing loop?"""
+        def walk(block, in_loop):
+            for st in block:
+                if isinstance(st, (ast.Return, ast.Raise)) and isinstance(st, kinds):
                     return True
-        return False
+                if isinstance(st, (ast.Break, ast.Continue)) and not in_loop and isinstance(st, kinds):
+                    return True
+                if isinstance(st, (ast.FunctionDef, ast.AsyncFunctionDef, ast.ClassDef)):
+                    continue
+                inner_loop = in_loop or isinstance(st, (ast.For, ast.While, ast.AsyncFor))
+                for field in ("body", "orelse", "finalbody"):
+                    blk = getattr(st, field, None)
+                    if isinstance(blk, list) and blk and isinstance(blk[0], ast.stmt) and walk(blk, inner_loop):
+                        return True
+                for h in getattr(st, "handlers", []) or []:
+                    if walk(h.body, inner_loop):
+                        return True
+            return False
+        return walk(list(stmts), False)
+
+    def _terminates_raise_only(self, stmts):
+        return not self._terminates(stmts, kinds=(ast.Return, ast.Break, ast.Continue))
 
     def _if(self, st, rest, env, guards):
         """Returns a final Result when the `if` was handled by continuation splitting, else None (env updated)."""
@@ -270,18 +479,19 @@ class PyVal:
             guards.extend(r.guards)
             return None
         c = self.value(st.test, env)
+        nc = mk_not(c)
         if self._terminates(st.body) or self._terminates(st.orelse):
-            r1 = self.run(list(st.body) + list(rest), env)
-            r2 = self.run(list(st.orelse) + list(rest), env)
+            r1 = self._under(c, self.run, list(st.body) + list(rest), env)
+            r2 = self._under(nc, self.run, list(st.orelse) + list(rest), env)
             if r1.term == "raise" and r2.term != "raise":
                 r2.guards = guards + [F("guard")(c)] + r2.guards
                 return r2
             if r2.term == "raise" and r1.term != "raise":
-                r1.guards = guards + [F("guard")(F("bnot")(c))] + r1.guards
+                r1.guards = guards + [F("guard")(nc)] + r1.guards
                 return r1
             return self._merge(c, r1, r2, guards)
-        r1 = self.run(st.body, env)
-        r2 = self.run(st.orelse, env)
+        r1 = self._under(c, self.run, st.body, env)
+        r2 = self._under(nc, self.run, st.orelse, env)
         m = self._merge(c, r1, r2, [])
         env.clear(); env.update(m.env)
         guards.extend(m.guards)
@@ -292,19 +502,19 @@ class PyVal:
         for k in set(r1.env) | set(r2.env):
             a = r1.env.get(k, sym(k))
             b = r2.env.get(k, sym(k))
-            env[k] = a if a == b else where(c, a, b)
+            env[k] = mk_where(c, a, b)
         if r1.ret is None and r2.ret is None:
             ret = None
         else:
             a = r1.ret if r1.ret is not None else sym("None")
             b = r2.ret if r2.ret is not None else sym("None")
-            ret = a if a == b else where(c, a, b)
+            ret = mk_where(c, a, b)
         g = list(guards)
         for x in r1.guards:
             g.append(x if x in r2.guards else F("when")(c, x))
         for x in r2.guards:
             if x not in r1.guards:
-                g.append(F("when")(F("bnot")(c), x))
+                g.append(F("when")(mk_not(c), x))
         term = r1.term if r1.term == r2.term else ("return" if "return" in (r1.term, r2.term) and None not in (r1.term, r2.term) else None)
         return Result(env, ret, g, term)
 
@@ -313,6 +523,16 @@ class PyVal:
             env[target.id] = v
         elif isinstance(target, ast.Attribute):
             env[pf.unparse(target)] = v
+            root = target.value
+            if isinstance(root, ast.Name) and root.id != "self" and root.id in env and env[root.id] != sym(root.id):
+                # an object built here and handed on later carries the attributes set on it (order-insensitive)
+                cur = env[root.id]
+                base, attrs = cur, {}
+                if getattr(cur, "func", None) == F("withattrs"):
+                    base = cur.args[0]
+                    attrs = {str(a.args[0]): a for a in cur.args[1:]}
+                attrs["." + target.attr] = F("kv")(sym("." + target.attr), hcons(v, 40))
+                env[root.id] = F("withattrs")(base, *[attrs[k] for k in sorted(attrs)])
         elif isinstance(target, (ast.Tuple, ast.List)):
             for k, e in enumerate(target.elts):
                 if getattr(v, "func", None) == F("seq") and len(v.args) == len(target.elts):
@@ -360,18 +580,19 @@ class PyVal:
                 if isinstance(f, ast.Attribute):
                     # obj.method(...) as a statement: obj is updated by the call
                     if isinstance(f.value, (ast.Name, ast.Attribute)):
-                        self._store(f.value, F("after_" + f.attr)(self._v(f.value, env), v), env)
+                        if f.attr not in MUTATORS:      # (mutators were recorded when the call was evaluated)
+                            self._store(f.value, F("after_" + f.attr)(self._hcons(self._v(f.value, env)), self._hcons(v)), env)
                 else:
                     for a in st.value.args:
                         if isinstance(a, (ast.Name, ast.Attribute)):
-                            self._store(a, F("after_call")(self._v(a, env), v), env)
+                            self._store(a, F("after_call")(self._hcons(self._v(a, env)), self._hcons(v)), env)
                 return
-            # other expression statements have no effect on values
+            self.value(st.value, env)     # yields / awaits are recorded as effects; anything else has no effect
         elif isinstance(st, (ast.For, ast.While, ast.AsyncFor)):
-            self._loop(st, env)
+            self._loop(st, env, guards)
         elif isinstance(st, ast.Try):
             r = self.run(st.body, env)
-            alts = [self.run(h.body, env) for h in st.handlers]
+            alts = [self._under(sym("exc%d" % k), self.run, h.body, env) for k, h in enumerate(st.handlers)]
             cur = r
             for k, a in enumerate(alts):
                 if a.term == "raise":
@@ -390,9 +611,11 @@ class PyVal:
             env.clear(); env.update(r.env)
             guards.extend(r.guards)
         elif isinstance(st, ast.Assert):
-            guards.append(F("guard")(F("bnot")(self.value(st.test, env))))
-        elif isinstance(st, (ast.FunctionDef, ast.AsyncFunctionDef, ast.ClassDef)):
-            env[st.name] = self._opaque(st, env, "def")
+            guards.append(F("guard")(mk_not(self.value(st.test, env))))
+        elif isinstance(st, (ast.FunctionDef, ast.AsyncFunctionDef)):
+            env[st.name] = self._nested_def(st, env)
+        elif isinstance(st, ast.ClassDef):
+            env[st.name] = self._opaque(st, env, "class")
         elif isinstance(st, ast.Delete):
             for t in st.targets:
                 env.pop(pf.unparse(t), None)
@@ -403,7 +626,30 @@ class PyVal:
         else:
             raise AnalysisError("pyval: statement outside the fragment: %s" % type(st).__name__)
 
-    def _loop(self, st, env):
+    def _nested_def(self, fn, env):
+        """A nested function as a value: parameters positional, body folded in the defining environment."""
+        self.def_depth = getattr(self, "def_depth", 0) + 1
+        d = self.def_depth
+        sub = dict(env)
+        a = fn.args
+        allp = a.posonlyargs + a.args + ([a.vararg] if a.vararg else []) + a.kwonlyargs + ([a.kwarg] if a.kwarg else [])
+        for k, p in enumerate(allp):
+            sub[p.arg] = sym("arg%d_%d" % (d, k))
+        body = list(fn.body)
+        if body and isinstance(body[0], ast.Expr) and isinstance(body[0].value, ast.Constant):
+            body = body[1:]
+        e0 = len(self.effects)
+        try:
+            r = self._under(F("in_def")(sym(fn.name)), self.run, body, sub)
+        finally:
+            self.def_depth -= 1
+        inner = [hcons(x[2], 3) for x in self.effects[e0:]]
+        del self.effects[e0:]
+        defaults = [self._v(x, env) for x in a.defaults] + [self._v(x, env) for x in a.kw_defaults if x is not None]
+        return F("deffn")(sp.Integer(len(allp)), r.ret if r.ret is not None else sym("None"), F("seq")(*inner) if inner else sym("seq0"),
+                          F("seq")(*defaults) if defaults else sym("seq0"), F("seq")(*r.guards) if r.guards else sym("seq0"))
+
+    def _loop(self, st, env, guards=None):
         written = []
 
         def note(root):
@@ -430,33 +676,129 @@ class PyVal:
                         note(e)
         sub = dict(env)
         targets = []
-        if isinstance(st, (ast.For, ast.AsyncFor)):
-            for e in ast.walk(st.target):
-                if isinstance(e, ast.Name):
-                    targets.append(e.id)
-            head = self.value(st.iter, env)
-            for k, t in enumerate(targets):
-                sub[t] = sym("it%d" % k)
-        carried = [w for w in written if w not in targets]
-        for k, w in enumerate(carried):
-            sub[w] = sym("carry%d" % k)
-        if isinstance(st, ast.While):
-            head = self.value(st.test, sub)
-        r = self.run(list(st.body), sub)
+        self.loop_depth = getattr(self, "loop_depth", 0) + 1
+        d = self.loop_depth
+        try:
+            if isinstance(st, (ast.For, ast.AsyncFor)):
+                for e in ast.walk(st.target):
+                    if isinstance(e, ast.Name):
+                        targets.append(e.id)
+                head = self.value(st.iter, env)
+                for k, t in enumerate(targets):
+                    sub[t] = sym("it%d_%d" % (d, k))
+            carried = [w for w in written if w not in targets]
+            for w in carried:
+                sub[w] = sym("carry%d:%s" % (d, w))
+            if isinstance(st, ast.While):
+                head = self.value(st.test, sub)
+            e0 = len(self.effects)
+            r = self._under(F("in_loop")(head), self.run, list(st.body), sub)
+        finally:
+            self.loop_depth -= 1
+        # carried variables keep their own name in the carry symbol: a temporary that is written before it is read never
+        # mentions its symbol, so adding or removing temporaries does not disturb the other variables
+        real = set()
+        for v in list(r.env.values()):
+            try:
+                real |= {str(a) for a in v.free_symbols}
+            except AttributeError:
+                pass
+        real = [w for w in carried if "carry%d:%s" % (d, w) in real]
         flow = r.env.get("__flow", sp.Integer(0))
-        for k, w in enumerate(carried):
-            upd = r.env.get(w, sym("carry%d" % k))
-            env[w] = F("loop")(head, upd, env.get(w, sym("unset")), flow)
+        # the recurrence system: a variable's value after the loop depends on how the variables its update mentions evolve;
+        # each value carries the closure of that dependency (dead temporaries stay out of everybody else's closure)
+        csym = {w: sym("carry%d:%s" % (d, w)) for w in carried}
+        upd = {w: r.env.get(w, sym("unchanged")) for w in carried}
+        names_of = {str(v): w for w, v in csym.items()}
+
+        def mentioned(e):
+            try:
+                return {names_of[str(a)] for a in e.free_symbols if str(a) in names_of}
+            except AttributeError:
+                return set()
+        deps = {w: mentioned(upd[w]) for w in carried}
+        init = {w: env.get(w, sym("unset")) for w in carried}
+
+        def closure(start):
+            seen, work = set(), list(start)
+            while work:
+                w = work.pop()
+                if w in seen:
+                    continue
+                seen.add(w)
+                work.extend(deps.get(w, ()))
+            return seen
+
+        def system(ws):
+            ent = [F("kv")(csym[w], hcons(upd[w], 40), hcons(init[w], 40)) for w in sorted(ws)]
+            return hcons(F("rec")(*ent), 3) if ent else sym("rec0")
+        for w in carried:
+            env_w_init = init[w] if w in real else sym("fresh")
+            env[w] = F("loop")(head, upd[w], env_w_init, flow, system(closure(deps[w]) | ({w} if w in deps[w] else set())))
+        for i in range(e0, len(self.effects)):
+            pc, nm, v = self.effects[i]
+            ws = mentioned(v)
+            for c in pc:
+                ws |= mentioned(c)
+            if ws:
+                self.effects[i] = (pc, nm, F("in_sys")(v, system(closure(ws))))
         for t in targets:
             env[t] = F("last")(head, sym("@" + t))
-def fold_function(fn, facts=None, funcs=None, env=None, pure=()):
-    pv = PyVal(funcs=funcs, facts=facts, pure=pure)
+        if guards is not None:
+            for g in r.guards:
+                guards.append(F("in_loop")(head, g))
+
+
+def fold_function(fn, facts=None, funcs=None, env=None, pure=(), inline=None, exact=False):
+    pv = PyVal(funcs=funcs, facts=facts, pure=pure, exact=exact)
+    pv.inline = inline or {}
     body = list(fn.body)
     if body and isinstance(body[0], ast.Expr) and isinstance(body[0].value, ast.Constant) and isinstance(body[0].value.value, str):
         body = body[1:]
     r = pv.run(body, env)
     r.calls = pv.calls
+    r.effects = pv.effects
     return r
+
+
+PURE_PREFIX = ("np.", "numpy.", "math.", "sp.", "scipy.", "os.path.")
+PURE_NAMES = {"return", "len", "int", "float", "str", "bool", "isinstance", "getattr", "hasattr", "min", "max", "abs", "sum", "sorted", "list",
+              "dict", "tuple", "set", "zip", "enumerate", "range", "repr", "type", "id", "callable", "any", "all", "map", "filter",
+              "reversed", "round", "divmod", "iter", "next", "frozenset", "OrderedDict", "slice", "super", "format", "ord", "chr",
+              "sqrt", "exp", "log", "sin", "cos", "erf", "pi", "joinpath", "splitext", "basename", "dirname", "abspath", "realpath"}
+
+
+def effect_trace(res):
+    """([(key, path-condition set)] of effectful calls in fold order, {keys of pure calls}); a key is the path condition
+    and the call value as text.  Duplicates (continuation re-runs) are collapsed."""
+    ordered, pure, seen = [], set(), set()
+    for pc, name, v in res.effects:
+        if name.startswith(NOOP_CALLS):
+            continue
+        pcs = frozenset(map(str, pc))
+        key = "%s :: %s" % (" & ".join(sorted(pcs)), v)
+        short = name.split(".")[-1]
+        if name.startswith(PURE_PREFIX) or name in PURE_NAMES or (short in ("copy", "get", "keys", "values", "items", "astype", "flatten",
+                                                                            "reshape", "split", "strip", "join", "startswith", "endswith",
+                                                                            "lower", "upper", "replace", "format", "index", "count", "tolist")
+                                                                  and "." in name):
+            pure.add(key)
+        elif key not in seen:
+            seen.add(key)
+            ordered.append((key, frozenset(pc)))
+    return ordered, pure
+
+
+def exclusive(pc1, pc2):
+    """Two path conditions that cannot hold in one execution (one contains c, the other its negation)."""
+    s2 = set(pc2)
+    for c in pc1:
+        try:
+            if mk_not(c) in s2:
+                return True
+        except Exception:
+            pass
+    return False
 
 
 def call_arg(call, pos=None, kw=None):
@@ -475,6 +817,7 @@ def fold_text(text, facts=None, funcs=None, env=None, pure=()):
     pv = PyVal(funcs=funcs, facts=facts, pure=pure)
     r = pv.run(tree.body, env)
     r.calls = pv.calls
+    r.effects = pv.effects
     return r
 
 
